@@ -243,3 +243,134 @@ def flatten_cond(t, pol):
     if t[0] == 'cmp' and t[1] not in _CANON_POS:
         return [(('cmp', _NEG[t[1]], t[2], t[3]), not pol)]
     return [(t, pol)]
+
+
+# ----------------------------------------------------------------------------------------------
+# gated value reconstruction along one path (no solver: names are substituted in order)
+# ----------------------------------------------------------------------------------------------
+class Event:
+    __slots__ = ('kind', 'node', 'name', 'term', 'extra')
+
+    def __init__(self, kind, node, name=None, term=None, extra=None):
+        self.kind, self.node, self.name, self.term, self.extra = kind, node, name, term, extra
+
+    def __repr__(self):
+        return 'Event(%s %s %s L%d)' % (self.kind, self.name, show(self.term) if self.term else '', self.node.lineno)
+
+
+def path_decisions(f, path, exit_kind=None):
+    """[(test node, polarity)] for the branch tests met on a path"""
+    out = []
+    for i, nid in enumerate(path):
+        nd = f.nodes[nid]
+        if nd.kind not in ('test', 'while'):
+            continue
+        if i + 1 < len(path):
+            nxt = f.nodes[path[i + 1]]
+            pol = False
+            for test, p, tid in nxt.conds:
+                if tid == nid:
+                    pol = p
+                    break
+            else:
+                # body entry of a while carries (test, True); an `if` without else falls through on False
+                pol = False
+            out.append((nd, pol))
+        else:
+            out.append((nd, None))
+    return out
+
+
+def walk_path(f, path, env=None):
+    """substitute names in order along `path`; returns (events, env).
+    events: def / append / store / raise / return / expr / test"""
+    env = dict(env or {})
+    events = []
+    decisions = dict((nd.id, pol) for nd, pol in path_decisions(f, path))
+    for nid in path:
+        nd = f.nodes[nid]
+        tb = TermBuilder(f, nid, False, env)
+        st = nd.stmt
+        if nd.kind in ('test', 'while'):
+            events.append(Event('test', nd, None, tb.build(nd.ast), decisions.get(nid)))
+            continue
+        if nd.kind == 'for':
+            it = tb.build(st.iter)
+            from .core import target_names, item
+            base = ('iter', it, nid)
+            for nm, p, _ in target_names(st.target):
+                t = base
+                for i in p:
+                    t = item(t, i)
+                env[nm] = t
+                events.append(Event('def', nd, nm, t))
+            continue
+        if nd.kind != 'stmt':
+            continue
+        if isinstance(st, ast.Assign):
+            new = {}
+            for d in nd.defs:
+                if d.kind == 'assign' and d.value is not None:
+                    t = tb.build(d.value)
+                    from .core import item
+                    for i in d.path:
+                        t = item(t, i)
+                    new[d.name] = t
+                    events.append(Event('def', nd, d.name, t))
+                elif d.kind == 'aug' and d.value is not None:
+                    from .core import fold_bin, _BINOPS
+                    val = tb.build(d.value)
+                    t = fold_bin(_BINOPS[type(d.extra)], tb.var(d.name), val)
+                    new[d.name] = t
+                    events.append(Event('aug', nd, d.name, t, val))
+                elif d.kind == 'mutate' and isinstance(d.extra, (ast.Subscript, ast.Attribute)):
+                    events.append(Event('store', nd, d.name, tb.build(d.value) if d.value is not None else None,
+                                        tb.build(_as_load(d.extra))))
+            for c in _calls_in(st.value):
+                _call_event(events, nd, tb, c)
+            env.update(new)
+        elif isinstance(st, ast.AugAssign):
+            from .core import fold_bin, _BINOPS
+            val = tb.build(st.value)
+            if isinstance(st.target, ast.Name):
+                t = fold_bin(_BINOPS[type(st.op)], tb.var(st.target.id), val)
+                env[st.target.id] = t
+                events.append(Event('aug', nd, st.target.id, t, val))
+            else:
+                events.append(Event('augstore', nd, base_name_of(st.target), val, tb.build(_as_load(st.target))))
+            for c in _calls_in(st.value):
+                _call_event(events, nd, tb, c)
+        elif isinstance(st, ast.Expr):
+            events.append(Event('expr', nd, None, tb.build(st.value)))
+            for c in _calls_in(st.value):
+                _call_event(events, nd, tb, c)
+        elif isinstance(st, ast.Return):
+            events.append(Event('return', nd, None, tb.build(st.value) if st.value is not None else ('c', None)))
+        elif isinstance(st, ast.Raise):
+            events.append(Event('raise', nd, None, tb.build(st.exc) if st.exc is not None else None))
+        elif isinstance(st, ast.Delete):
+            for t in st.targets:
+                if isinstance(t, ast.Name):
+                    env.pop(t.id, None)
+                else:
+                    events.append(Event('delete', nd, base_name_of(t), tb.build(_as_load(t))))
+        elif isinstance(st, (ast.Break, ast.Continue, ast.Pass)):
+            events.append(Event(type(st).__name__.lower(), nd))
+    return events, env
+
+
+def base_name_of(t):
+    from .core import base_name
+    return base_name(t)
+
+
+def _calls_in(expr):
+    return [c for c in ast.walk(expr) if isinstance(c, ast.Call)]
+
+
+def _call_event(events, nd, tb, c):
+    fn = c.func
+    if isinstance(fn, ast.Attribute) and fn.attr in ('append', 'add', 'insert', 'extend'):
+        b = base_name_of(fn.value)
+        if b is not None:
+            events.append(Event(fn.attr, nd, b, tuple(tb.build(a) for a in c.args), tb.build(fn.value)))
